@@ -16,7 +16,14 @@
    may issue at any time (Mutex.OSpur, CondVar spurious ops, Semaphore.StaleResume, Join.AResume),
    and all theorems quantify over programs containing it: the contract actually assumed is
    "suspend may return spuriously at any time; a resume issued after the waiter registered is
-   never lost". *)
+   never lost".
+   That weak contract is a machine-checked interface: Model/WeakAgent.v defines it as a small
+   transition system (labels Reg Susp Res Wake Yield Term; Wake enabled whenever blocked; `wowed`
+   set by a Res after Reg, cleared only by Wake / Yield / Term), Props/Properties_C02.v proves that
+   the scheduler model refines it (C02_sched_refines_weak_agent, C02_sched_no_lost_resume) and that
+   the operations of THIS file, plus the stale-resume step (= a_resume again), are instances of
+   its steps and never leave an agent blocked while a wake-up is owed
+   (C02_agent_interface_is_weak_agent, C02_agent_runs_are_weak_agent_runs). *)
 From Coq Require Import Bool.
 
 Record agent_state := { tok : bool; blocked : bool }.
